@@ -8,13 +8,15 @@ LABELS = ["green", "red", "yellow"]
 CAMS = ["cam_traffic_light_near", "cam_traffic_light_far"]
 
 
-def obj(uuid, label, cam, tl=True):
+def obj(uuid, label, cam, tl=True, raw_variant=False):
     from perception_eval.common.label import Label, TrafficLightLabel, AutowareLabel
     from perception_eval.common.object2d import DynamicObject2D
     from perception_eval.common.schema import FrameID
     # "fp": the false-positive label of either family (a ground truth may carry it; an estimate reported with the same label agrees with it)
-    lab = (Label(TrafficLightLabel({"fp": "false_positive"}.get(label, label)), label) if tl else
-           Label(AutowareLabel({"green": "car", "red": "pedestrian", "yellow": "bicycle", "fp": "false_positive"}[label]), label))
+    # ground truths (str uuid ending in no marker is fine): the raw spelling a label was converted from differs between sources ("red" / "crosswalk_red")
+    raw = ("crosswalk_" + label) if (raw_variant and label != "fp") else label
+    lab = (Label(TrafficLightLabel({"fp": "false_positive"}.get(label, label)), raw, ["x"] if raw_variant else []) if tl else
+           Label(AutowareLabel({"green": "car", "red": "pedestrian", "yellow": "bicycle", "fp": "false_positive"}[label]), raw, ["x"] if raw_variant else []))
     return DynamicObject2D(0, FrameID.from_value(cam), 0.9, lab, roi=None, uuid=uuid)
 
 
@@ -22,7 +24,7 @@ def check(case):
     from perception_eval.common.evaluation_task import EvaluationTask
     from perception_eval.evaluation.result.object_result import get_object_results
     est = [obj(*e, tl=case["tl"]) for e in case["est"]]
-    gt = [obj(*g, tl=case["tl"]) for g in case["gt"]]
+    gt = [obj(*g, tl=case["tl"], raw_variant=case.get("raw_variant", False)) for g in case["gt"]]
     e0, g0 = list(est), list(gt)
     try:
         res = get_object_results(EvaluationTask.CLASSIFICATION2D, est, gt, uuid_matching_first=case["uuid_first"])
@@ -41,7 +43,7 @@ def check(case):
         used_g.append(g)
         if e.frame_id != g.frame_id:
             return "a pair spans two camera frames"
-        same_label, same_id = e.semantic_label == g.semantic_label, e.uuid == g.uuid
+        same_label, same_id = e.semantic_label.label is g.semantic_label.label, e.uuid == g.uuid
         if case["tl"]:
             if not (same_id or (same_label and not case["uuid_first"])):
                 return f"traffic lights paired without equal uuid / label: {e.uuid}:{e.semantic_label.label} with {g.uuid}:{g.semantic_label.label}"
@@ -54,19 +56,19 @@ def check(case):
             return False
         if not case["tl"]:
             return e.uuid == g.uuid
-        return e.uuid == g.uuid or (e.semantic_label == g.semantic_label and not case["uuid_first"])
+        return e.uuid == g.uuid or (e.semantic_label.label is g.semantic_label.label and not case["uuid_first"])
     best = 0
     idx_g = list(range(len(gt)))
     for k in range(0, min(len(est), len(gt)) + 1):
         for es in itertools.combinations(range(len(est)), k):
             for gs in itertools.permutations(idx_g, k):
                 if all(allowed(est[a], gt[b]) for a, b in zip(es, gs)):
-                    best = max(best, sum(est[a].semantic_label == gt[b].semantic_label for a, b in zip(es, gs)))
+                    best = max(best, sum(est[a].semantic_label.label is gt[b].semantic_label.label for a, b in zip(es, gs)))
     if correct != best:
         return f"{correct} label-correct pairs, the largest possible number under the pairing rule is {best}"
     from perception_eval.evaluation.metrics.classification.accuracy import ClassificationAccuracy
     acc = ClassificationAccuracy(res, len(gt), [])
-    n_ok = sum(1 for r in res if r.ground_truth_object is not None and r.estimated_object.semantic_label == r.ground_truth_object.semantic_label)
+    n_ok = sum(1 for r in res if r.ground_truth_object is not None and r.estimated_object.semantic_label.label is r.ground_truth_object.semantic_label.label)
     if acc.num_tp != n_ok or acc.num_tp + acc.num_fp != len(res):
         return f"accuracy counts TP {acc.num_tp} / FP {acc.num_fp} for {len(res)} pairs of which {n_ok} are label-correct"
     n, G, tp = len(res), len(gt), n_ok
@@ -100,7 +102,7 @@ def check(case):
             # label stage is greedy in list order: an unpaired estimate has no unpaired equally-labelled ground truth in its camera
             for e in est:
                 for g in gt:
-                    if (e.semantic_label == g.semantic_label and e.frame_id == g.frame_id and not any(e is x for x in used_e)
+                    if (e.semantic_label.label is g.semantic_label.label and e.frame_id == g.frame_id and not any(e is x for x in used_e)
                             and not any(g is x for x in used_g)):
                         return f"equally labelled traffic lights {e.uuid} / {g.uuid} in the same camera are both left unpaired"
     return None
@@ -164,7 +166,7 @@ def search_shared_ids(seed):
         gs = rng.sample(combos, rng.randint(0, 3))
         est = [(u, rng.choice(LABELS), c) for u, c in es]
         gt = [(u, rng.choice(LABELS[:2]), c) for u, c in gs]
-        case = dict(tl=rng.random() < 0.5, est=est, gt=gt, uuid_first=rng.random() < 0.5)
+        case = dict(tl=rng.random() < 0.5, est=est, gt=gt, uuid_first=rng.random() < 0.5, raw_variant=rng.random() < 0.5)
         why = check(case)
         if why:
             return dict(function="pairing", input=case, observed=why)
